@@ -46,7 +46,7 @@ func init() { core.Register(prop{}) }
 func (prop) ID() string    { return "C18" }
 func (prop) Level() string { return "fault_enumeration" }
 func (prop) Rule() string {
-	return "scenario = one data directory and a history of starts of the real binary: (a) restart histories of length 2..5 with varying enabled services (ssh-simulator, ftp, smtp, ldap, telnet; agent listener in histories of its own), stopped by SIGTERM or SIGKILL; (b) every on-disk state of the token file a kill can leave: absent, empty, every proper prefix of a 20-character id (22 states, exhaustive), then two starts; (c) first starts killed at seeded instants (quick) or at the k-th openat/write/fsync/rename/mkdir syscall via strace (thorough), then two starts. Oracle: well-formed token, identity tuple equal across all later runs. Non-trivial = >=2 runs came up and at least the token was read from events; distinct by scenario parameters. Kills at the k-th system call that touches a file of the data directory discovered by tracing one complete first start (token, its temporary, the key-value store's directory and value log: every stored identity item is one write to it), k = 1..10 (path-kill), with all services enabled. ssh-auth is enabled as a second service of the ssh family (it shares the stored host key). store-prefix: after one complete start the key-value store is cut back to its first n items in the order they were written (n = 0..8, thorough 0..11), then three starts follow whose identities must agree."
+	return "scenario = one data directory and a history of starts of the real binary: (a) restart histories of length 2..5 with varying enabled services (ssh-simulator, ftp, smtp, ldap, telnet; agent listener in histories of its own), stopped by SIGTERM or SIGKILL; (b) every on-disk state of the token file a kill can leave: absent, empty, every proper prefix of a 20-character id (22 states, exhaustive), then two starts; (c) first starts killed at seeded instants (quick) or at the k-th openat/write/fsync/rename/mkdir syscall via strace (thorough), then two starts. Oracle: well-formed token, identity tuple equal across all later runs. Non-trivial = >=2 runs came up and at least the token was read from events; distinct by scenario parameters. Kills at the k-th system call that touches a file of the data directory discovered by tracing one complete first start (token, its temporary, the key-value store's directory and value log: every stored identity item is one write to it), k = 1..10 (path-kill), with all services enabled. ssh-auth is enabled as a second service of the ssh family (it shares the stored host key). store-prefix: after one complete start the key-value store is cut back to its first n items in the order they were written (n = 0..8, thorough 0..11), then three starts follow whose identities must agree. Two histories in which an ssh-auth service with a private key in its configuration joins the others for every second run."
 }
 func (prop) Assumptions() []string {
 	return []string{"crash = process kill (SIGKILL); power loss (unsynced page cache) is not modelled", "a start that does not come up within 20 s is retried twice before it counts as 'does not come up'", "well-formed token = 20 characters of [0-9a-v] (the id generator's shape)"}
